@@ -12,6 +12,8 @@ changed in a template breaks the tie.  Parts:
 * row types of the generated tables (`RefRow`, `TagFact`, …) and the facts demanded of them;
 * `Ent`/`NsD` — a run as the templates see it; `entItems`/`sidebarItems`/`nsInfoItems`/`nsPageItems`/`typePageItems`;
 * `pages` — the files a run writes, each with its inventory; `Resolves` — what it means for a reference to have a target;
+* `Source`/`srcNs`/`assign` — where each id of a page comes from (flat, in document order, `make_unique` state threaded);
+  `simpleRun` — the decidable sufficient condition under which all ids of a page are pairwise distinct;
 * `isCssIdent`, `urlSafe` — the contexts in which ids and links are used besides HTML text.
 -/
 namespace NunavutVerif.Html
@@ -388,9 +390,21 @@ def wfL (parent : List Str) : List NsD → Bool
   | n :: l => (n.name.dropLast == parent && n.name != []) && n.wf && wfL parent l
 end
 
-/-! ## Where the ids of a page come from; when they cannot coincide -/
+/-! ## Executable forms of the hypotheses of the link theorem -/
 
 deriving instance DecidableEq for CType
+
+/-- executable forms of the hypotheses of the link theorem (for the driver and the examples) -/
+def validCompB (c : Str) : Bool := !c.isEmpty && c.all isNameChar
+
+def runOkB (run : NsD) : Bool :=
+  run.wf && (subtrees run).all fun m => !m.name.isEmpty && m.name.all validCompB
+
+def closedB (runs : List NsD) : Bool :=
+  runs.all fun run => (linkedNs run).all fun ct =>
+    validCompB ct.rootNamespace && runs.any fun tgt => tgt.name == [ct.rootNamespace] && (listedTypes tgt).contains ct.entry
+
+/-! ## Where the ids of a page come from; when they cannot coincide -/
 
 /-- where an id of the `namespaceinfo` part comes from, in document order -/
 inductive Source
